@@ -226,14 +226,23 @@ func (p *Policy) Assemble() ([]bpf.Instruction, error) {
 		p.arch = arch
 	}
 
+	// Only the last group that contains syscalls ends with the default action,
+	// the other groups continue with the group that follows them.
+	lastGroup := -1
+	for i, group := range p.Syscalls {
+		if len(group.Names) > 0 || len(group.NamesWithCondtions) > 0 {
+			lastGroup = i
+		}
+	}
+
 	// Build the syscall filters.
 	var instructions []bpf.Instruction
-	for _, group := range p.Syscalls {
+	for i, group := range p.Syscalls {
 		if group.arch == nil {
 			group.arch = p.arch
 		}
 
-		groupInsts, err := group.Assemble(p.DefaultAction)
+		groupInsts, err := group.assemble(p.DefaultAction, i == lastGroup)
 		if err != nil {
 			return nil, err
 		}
@@ -360,6 +369,13 @@ func (g *SyscallGroup) toSyscallsWithConditions() ([]SyscallWithConditions, erro
 }
 
 func (g *SyscallGroup) Assemble(defaultAction Action) ([]bpf.Instruction, error) {
+	return g.assemble(defaultAction, true)
+}
+
+// assemble assembles the group. If the group is not the last one of a policy,
+// the filter continues behind the group's instructions when no syscall matches
+// instead of returning the default action.
+func (g *SyscallGroup) assemble(defaultAction Action, last bool) ([]bpf.Instruction, error) {
 	if len(g.Names) == 0 && len(g.NamesWithCondtions) == 0 {
 		return nil, nil
 	}
@@ -377,7 +393,12 @@ func (g *SyscallGroup) Assemble(defaultAction Action) ([]bpf.Instruction, error)
 		syscall.Assemble(&p, action)
 	}
 
-	p.Ret(defaultAction)
+	if last {
+		p.Ret(defaultAction)
+	} else {
+		// Jump over the return of the group's action to the next group.
+		p.instructions = append(p.instructions, bpf.Jump{Skip: 1})
+	}
 
 	p.SetLabel(action)
 	p.Ret(g.Action)
